@@ -502,6 +502,20 @@ theorem calendarReforming_eq (r : Int) : calendarReforming r = Chk.mkReforming r
               · cases kd <;> simp <;> (repeat' split) <;> simp_all
   · simp [hi]
 
+/-! ### comparison traits (`impl Ord / PartialEq / PartialOrd for inner::Calendar`, `for Date`) -/
+
+theorem calendarCmp_eq (a b : Calendar) : calendarCmp a b = a.cmp b := by
+  cases a <;> cases b <;> rfl
+theorem calendarEq_eq (a b : Calendar) : calendarEq a b = a.beq b := by
+  simp only [calendarEq, calendarCmp_eq, Calendar.beq]
+theorem calendarPartialCmp_eq (a b : Calendar) : calendarPartialCmp a b = some (a.cmp b) := by
+  simp only [calendarPartialCmp, calendarCmp_eq]
+theorem dateCmp_eq (a b : Date) : dateCmp a b = a.cmp b := by
+  simp only [dateCmp, Date.cmp, dateJulianDayNumber, dateCalendar, calendarCmp_eq]
+  cases compare a.jdn b.jdn <;> rfl
+theorem datePartialCmp_eq (a b : Date) : datePartialCmp a b = some (a.cmp b) := by
+  simp only [datePartialCmp, dateCmp_eq]
+
 /-! ### iter.rs -/
 
 theorem daysNew_eq (s : MonthShape) :
